@@ -1,7 +1,7 @@
 //! Shared by the C04/C05 (and render) harness binaries: running `tri_fill` for the
 //! attribute types the properties name, and printing scanlines / fragments.
 use re::geom::{vertex, Vertex};
-use re::math::color::{rgb, Color3f};
+use re::math::color::{rgb, rgba, Color3f, Color4f};
 use re::math::point::{pt3, Point3};
 use re::math::vary::Vary;
 use re::math::{vec2, vec3, Vec2, Vec3};
@@ -57,6 +57,15 @@ impl AttrKind for Color3f {
         self.0.to_vec()
     }
 }
+impl AttrKind for Color4f {
+    const K: usize = 4;
+    fn from_words(w: &[f32]) -> Self {
+        rgba(w[0], w[1], w[2], w[3])
+    }
+    fn words(&self) -> Vec<f32> {
+        self.0.to_vec()
+    }
+}
 impl AttrKind for Point3 {
     const K: usize = 3;
     fn from_words(w: &[f32]) -> Self {
@@ -83,6 +92,7 @@ pub fn kind_words(kind: &str) -> usize {
         "s" => 1,
         "v2" => 2,
         "v3" | "c3" | "p3" | "t" => 3,
+        "c4" => 4,
         _ => panic!("kind"),
     }
 }
@@ -128,6 +138,7 @@ pub fn fill_kind(kind: &str, w: &[f32], with_frags: bool) -> String {
         "v2" => fill::<Vec2>(w, with_frags),
         "v3" => fill::<Vec3>(w, with_frags),
         "c3" => fill::<Color3f>(w, with_frags),
+        "c4" => fill::<Color4f>(w, with_frags),
         "p3" => fill::<Point3>(w, with_frags),
         "t" => fill::<(Vec2, f32)>(w, with_frags),
         _ => panic!("kind"),
